@@ -21,8 +21,8 @@ CONSTANTS MaxDepth,     \* depth bound of the enumeration
           EmitFrom,     \* emit only expressions of at least this depth (0 = all)
           CoreStart,    \* TRUE: start from the core leaves only (random walks into depth 2 and 3)
           PairAll,      \* TRUE: depth 1 pairs every leaf with every leaf; FALSE: every leaf with every core leaf
-          SampleMod,    \* composites are expanded further only if Code(e) % SampleMod = SampleRes (1, 0: all of them):
-          SampleRes     \* a deterministic pseudo-random subset of the deeper space
+          SampleMod,    \* composites are combined further only if Code(e) % SampleMod = SampleRes (1, 0: all of them):
+          SampleRes     \* a deterministic pseudo-random subset of the deeper space (the others are only shifted)
 
 VARIABLES e
 evars == <<e>>
@@ -65,8 +65,9 @@ CoreOperands == InfoSet(CoreLeafExprs)
 D1Core == IF TwoSided THEN UNION {Grow(x, CoreOperands) : x \in CoreLeafExprs} ELSE {}
 DeepOperands == CoreOperands \cup InfoSet(D1Core)
 
-Operands(x) == IF Depth(x) = 0 /\ ~CoreStart THEN (IF PairAll \/ x \in CoreLeafExprs THEN AllOperands ELSE CoreOperands)
-               ELSE DeepOperands
+Operands(x) == IF Depth(x) > 0 THEN DeepOperands
+               ELSE IF CoreStart THEN CoreOperands
+               ELSE IF PairAll \/ x \in CoreLeafExprs THEN AllOperands ELSE CoreOperands
 
 Init == e \in (IF CoreStart THEN CoreLeafExprs ELSE AllLeafExprs)
 \* a structural hash, only used to thin out the expansion of composites
@@ -78,9 +79,12 @@ Code(x) == CASE x[1] = "leaf" -> LeafIdx(x[2]) + 37 * (x[3] + 1) + 41 * (x[4] + 
              [] x[1] = "fn" -> (7 * Len(x[2]) + 5 * Len(x[3]) + 29 * Code(x[3][1]) + (IF Len(x[3]) = 2 THEN 23 * Code(x[3][2]) ELSE 0)) % 9973
              [] OTHER -> (11 + Len(x[2]) + 3 * Code(x[3])) % 9973
 
+\* composites outside the sample are still shifted to the previous time step / iterate (two successors, cheap)
+ShiftsOf(x) == {c \in {Shift("time", x), Shift("iter", x)} : WellTyped(c)}
 Next == /\ Depth(e) < MaxDepth
-        /\ IF Depth(e) = 0 THEN TRUE ELSE OverCore(e) /\ Code(e) % SampleMod = SampleRes
-        /\ e' \in Grow(e, Operands(e))
+        /\ IF Depth(e) = 0 THEN e' \in Grow(e, Operands(e))
+           ELSE /\ OverCore(e)
+                /\ IF Code(e) % SampleMod = SampleRes THEN e' \in Grow(e, Operands(e)) ELSE e' \in ShiftsOf(e)
 Spec == Init /\ [][Next]_evars
 
 Emit == (IsRoot(e) /\ Depth(e) >= EmitFrom /\ Depth(e) <= MaxDepth) =>
